@@ -50,6 +50,11 @@ CLAIMED = {
    design_ref="DESIGN.md section 6 C14",
    note="bit-for-bit comparison needs no numeric oracle",
    technique="TLA+ synonym table (Synonyms.tla) enumerated exhaustively by TLC; paired execution synonym vs geometric name, bit-for-bit"),
+ "C15": dict(category="model_checking",
+   text="spec/ObjectSM.tla is a state machine over one mutable object vector (stored record per coordinate group; actions Set(name, value) for all nine coordinates, += -= *= /=, and operations that must raise); TLC explores it exhaustively to length 2 (quick) / 3 (thorough) from every coordinate system and flavor and by random simulation to depth 6 / 10, checking the six safety properties (ReadsBack, PartnerPreserved, OtherGroupsUntouched, InPlaceKeepsSystem, InPlaceIsFunctional, RaiseLeavesUnchanged) as action properties. Every generated history is replayed step by step into real object vectors (60-digit and float64; momentum spellings chosen among synonyms; in-place operands in varying systems and flavors) with the object compared with the specification state after each step and the same properties asserted on the object itself. Conversely random sessions on real objects are recorded and each event is validated by TLC against ObjectSMTrace.tla (total verdicts).",
+   design_ref="DESIGN.md section 6 C15, section 13",
+   note="exact comparison while stored values stay rational, numeric (replay) or structural (trace) otherwise",
+   technique="TLA+ state machine (ObjectSM.tla) model-checked with action properties; behaviours replayed into real objects; recorded traces validated by TLC (ObjectSMTrace.tla)"),
 }
 
 def entry(pid, c):
